@@ -24,7 +24,7 @@ RULE = ('random expression trees of depth 1..6 over + - neg abs *k k* /k %k with
         'distinct = (class, operator, operand-class, sign/zero class) buckets')
 ASSUMPTIONS = ['angle_exact gives the denoted value of every operand/result from the stored fields (exact rationals)',
                'comparisons closer than the 1e-8" resolution may answer either way (DESIGN.md section 5)']
-REQUIRED_COUNTERS = ['operand_snapshots_compared', 'rounding_carry_cases', 'modulus_equal_to_angle', 'carried_fields_modulo_cases', 'numpy_scalar_operands', 'round_then_mod_sequences', 'op:add', 'op:sub', 'op:radd', 'op:rsub', 'op:mul', 'op:rmul', 'op:truediv', 'op:neg', 'op:abs', 'op:mod', 'op:eq', 'op:lt',
+REQUIRED_COUNTERS = ['operand_snapshots_compared', 'augmented_assignments', 'float_base_of_result_compared', 'rounding_carry_cases', 'modulus_equal_to_angle', 'carried_fields_modulo_cases', 'numpy_scalar_operands', 'round_then_mod_sequences', 'op:add', 'op:sub', 'op:radd', 'op:rsub', 'op:mul', 'op:rmul', 'op:truediv', 'op:neg', 'op:abs', 'op:mod', 'op:eq', 'op:lt',
                      'op:gt', 'op:ne', 'op:round', 'trees']
 N = {'quick': 400, 'thorough': 6000}
 SHARDS = {'quick': 16, 'thorough': 32}
@@ -216,6 +216,15 @@ class OpMonitors:
                 return False
         return True
 
+    def float_consistent(self, cls, op, a, b, res):
+        """the result read as the float it is (DECAngle derives from float) is the angle its fields denote"""
+        mm = ax.float_value_mismatch(res)
+        if mm is None:
+            if isinstance(res, float) and self._isangle(res):
+                self.ctx.count('float_base_of_result_compared')
+            return
+        self._viol(cls, op, 'result-read-as-float-differs-from-its-angle', a, b, res, {'float_value': mm[0], 'dec_angle': mm[1]})
+
     def install(self):
         A = self.A
         mon = self
@@ -250,6 +259,7 @@ class OpMonitors:
                 raise
             mon.operands_unchanged(cname, op, (a0, b0), (self_, other))
             judge(cname, op, a0, b0, r, None)
+            mon.float_consistent(cname, op, a0, b0, r)
             return r
         wrapper.__name__ = op
         setattr(cls, op, wrapper)
@@ -270,6 +280,7 @@ class OpMonitors:
                 raise
             mon.operands_unchanged(cname, op, (a0,), (self_,))
             mon.judge_arith(cname, op, a0, None, r, None)
+            mon.float_consistent(cname, op, a0, None, r)
             return r
         wrapper.__name__ = op
         setattr(cls, op, wrapper)
@@ -290,6 +301,7 @@ class OpMonitors:
                 raise
             mon.operands_unchanged(cname, '__round__', (a0,), (self_,))
             mon.judge_round(cname, a0, n, r, None)
+            mon.float_consistent(cname, '__round__', a0, n, r)
             return r
         wrapper.__name__ = '__round__'
         setattr(cls, '__round__', wrapper)
@@ -421,21 +433,56 @@ def count_leaves(t):
     return sum(count_leaves(c) for c in t[1:] if isinstance(c, list))
 
 
+AUG = {'n': 0, 'changed': []}
+
+
+def _augmented(t):
+    """every fourth binary node (decided by the node's own text, so a replay repeats it) is written as an augmented assignment"""
+    return int(core.stable_hash(['aug', t]), 16) % 4 == 0
+
+
 def evaluate(A, t, classes, it):
     op = t[0]
     if op == 'leaf':
         cls = classes[next(it)]
         return ax.make_object(A, cls, t[1])
     a = evaluate(A, t[1], classes, it)
-    if op == 'add':
-        return a + evaluate(A, t[2], classes, it)
-    if op == 'sub':
-        return a - evaluate(A, t[2], classes, it)
+    if op in ('add', 'sub'):
+        b = evaluate(A, t[2], classes, it)
+        if _augmented(t):
+            # the statement form, as in `total = legs[0]; total += leg`: the other binding of the left operand must still be
+            # the angle it was (the same program on floats leaves it alone)
+            keep, before = a, _den(a)
+            x = a
+            if op == 'add':
+                x += b
+            else:
+                x -= b
+            AUG['n'] += 1
+            after = _den(keep)
+            if before is not None and (after is None or abs(after - before) > TOL):
+                AUG['changed'].append({'op': op, 'left_class': type(keep).__name__, 'before_deg': float(before),
+                                       'after_deg': None if after is None else float(after)})
+            return x
+        return a + b if op == 'add' else a - b
     if op == 'neg':
         return -a
     if op == 'abs':
         return abs(a)
     k = num(t[2])
+    if op in ('mul', 'div') and _augmented(t):
+        keep, before = a, _den(a)
+        x = a
+        if op == 'mul':
+            x *= k
+        else:
+            x /= k
+        AUG['n'] += 1
+        after = _den(keep)
+        if before is not None and (after is None or abs(after - before) > TOL):
+            AUG['changed'].append({'op': op, 'left_class': type(keep).__name__, 'before_deg': float(before),
+                                   'after_deg': None if after is None else float(after)})
+        return x
     if op == 'mul':
         return a * k
     if op == 'rmul':
@@ -466,8 +513,16 @@ def run_tree(ns, ctx, tree, assignments):
             # an operator's monitor has recorded the failing node; the program as a whole failed too
             ctx.judged()
             ctx.violation('expression:exception', {'tree': tree, 'classes': classes}, {'exception': repr(e)})
+            AUG['n'], AUG['changed'] = 0, []
             continue
         ctx.judged()
+        if AUG['n']:
+            ctx.count('augmented_assignments', AUG['n'])
+            AUG['n'] = 0
+        for ch in AUG['changed']:
+            ctx.violation('augmented-assignment:other-binding-of-left-operand-changed#%s' % ch['left_class'],
+                          {'tree': tree, 'classes': classes}, ch)
+        AUG['changed'] = []
         if unstable:
             ctx.count('trees_mod_dontcare')
             continue
